@@ -126,11 +126,26 @@ def main(argv=None):
 
     ctx = mp.get_context("fork")
     results, bresults = [], []
+    # every task has a deadline: a hung solver / engine loop must not hang the check (it becomes `undecided`, exit 2)
+    budget = float(os.environ.get("VERIF_TASK_TIMEOUT", "900" if args.tier == "quick" else "7200"))
     with ctx.Pool(min(args.jobs, max(1, len(tasks) + len(bounded)))) as pool:
-        ar = pool.map_async(_vc_task, [(modname, t) for t in tasks], chunksize=1)
-        br = pool.map_async(_bounded_task, [(modname, i, args.tier, seed) for i in range(len(bounded))], chunksize=1)
-        results = ar.get()
-        bresults = br.get()
+        ars = [(t, pool.apply_async(_vc_task, ((modname, t),))) for t in tasks]
+        brs = [(i, pool.apply_async(_bounded_task, ((modname, i, args.tier, seed),))) for i in range(len(bounded))]
+        deadline = time.time() + budget
+        for t, ar in ars:
+            try:
+                results.append(ar.get(timeout=max(1.0, deadline - time.time())))
+            except mp.TimeoutError:
+                nm = t[1] if t[0] == "case" else "lemma:" + t[1]
+                results.append(dict(contract=nm, key=nm, case=str(t[2]) if len(t) > 2 else "-", case_index=t[2] if len(t) > 2 else 0, obligations=[], covers=[],
+                                    trusted=[], paths=0, undecided=f"no result within {budget:.0f} s (task abandoned)", time_s=budget, source_hash=None, span=None))
+        for i, br in brs:
+            try:
+                bresults.append(br.get(timeout=max(1.0, deadline - time.time() + (600 if args.tier == "quick" else 7200))))
+            except mp.TimeoutError:
+                bresults.append(dict(name=f"{modname}#{i}", crash=f"bounded stand-in did not finish within its time budget", violations=[], evaluations=0,
+                                     distinct=0, bound="?"))
+        pool.terminate()
 
     known = load_known()
     violations, known_hits, undecided, crashes = [], [], [], []
